@@ -110,6 +110,10 @@ def stats(t: Any) -> Dict[str, float]:
 def _close(x: float, y: float, rel: float = 1e-5) -> bool:
     if math.isnan(x) or math.isnan(y):
         return math.isnan(x) and math.isnan(y)
+    if x == y:  # also +-inf (a deep product chain may overflow float32)
+        return True
+    if math.isinf(x) or math.isinf(y):
+        return False
     return abs(x - y) <= rel * max(abs(x), abs(y)) + 1e-30
 
 
@@ -428,6 +432,14 @@ def _analyse(plan: Dict[str, Any], spec: Dict[str, Any], original: Any, inputs: 
             if mt:
                 printed[mt.group(1)] = (mt.group(2).strip(), mt.group(3).strip())
         ncmp = 0
+        # the reference comes from a second execution: a gradient that is pure cancellation noise
+        # (orders of magnitude below the others) is not reproducible to 3 digits between two
+        # executions whose autograd graphs differ by the tracking nodes
+        def _mx(dd: Dict[str, Dict[str, float]]) -> float:
+            vals = [v["std_biased"] for v in dd.values() if not math.isnan(v["std_biased"]) and not math.isinf(v["std_biased"])]
+            return max(vals) if vals else 0.0
+
+        floor = {"forward": 1e-6 * _mx(cap.fwd), "backward": 1e-6 * _mx(cap.bwd)}
         for name, (f_s, b_s) in printed.items():
             if name not in cap.fwd:
                 raise Violation("metrics", "annotation_on_non_float_value", f"{name} {where}")
@@ -442,7 +454,8 @@ def _analyse(plan: Dict[str, Any], spec: Dict[str, Any], original: Any, inputs: 
                     raise Violation("metrics", "analyse_backward_spurious", f"{name}: printed {s_txt} but no gradient reached it {where}")
                 v = float(s_txt)
                 r1, r2 = ref["std_unbiased"], ref["std_biased"]
-                ok = any(_close(v, rr, 6e-3) for rr in (r1, r2)) or (math.isnan(v) and math.isnan(r1))
+                ok = any(_close(v, rr, 6e-3) or abs(v - rr) <= floor[label] for rr in (r1, r2)) or \
+                    (math.isnan(v) and math.isnan(r1))
                 if not ok:
                     raise Violation("metrics", f"analyse_{label}_std_wrong", f"{name}: printed {s_txt}, recomputed {r1!r} {where}")
                 ncmp += 1
